@@ -20,8 +20,6 @@ structure OERow where
   cost : Rat
   weight : Rat
 
-def addS (l : List (String × Rat)) (k : String) (v : Rat) : List (String × Rat) :=
-  if l.any (·.1 == k) then l.map (fun p => if p.1 == k then (k, dadd p.2 v) else p) else l ++ [(k, dadd 0 v)]
 
 structure OPAsset where
   asset : String
@@ -59,12 +57,13 @@ def opERows (p : OPAsset) (unit total : Rat) (ei : Nat) : List OERow :=
     let ec := dmul b unit
     ({ row := ei + k + 1, asset := p.asset, holder := h, acct, bal := b, unit, cost := ec, weight := ddiv ec total } : OERow)
 
-/-- second pass, one asset: nothing for an asset without unsold cost; `KeyError` when it has cost but no positive balance -/
+/-- second pass, one asset: nothing for an asset without unsold cost, nor (after the repair of F16: the lookup used to raise `KeyError`) for
+    one whose residual cost is rounding noise of the sold percentages while nothing is held any longer -/
 def opStep (total : Rat) (acc : List OARow × List OERow × Nat × Nat) (p : OPAsset) : Except String (List OARow × List OERow × Nat × Nat) :=
   match p.cost with
   | none => pure acc
   | some cost =>
-    if p.holders.isEmpty then throw s!"KeyError: {p.asset}"
+    if p.holders.isEmpty then pure acc
     else
       let tb := p.holders.foldl (fun s h => dadd s h.2) 0
       let unit := ddiv cost tb
